@@ -501,7 +501,7 @@ def run_components(ctx, i, space):
     # some of the imports are made by the configuration text instead
     # ('%import' lines in front of it): the same vocabulary in the end
     late = []
-    if rng.random() < 0.3 and len(imports) > 1 and not cyclic:
+    if rng.random() < 0.5 and len(imports) > 1 and not cyclic:
         cut = rng.randint(1, len(imports) - 1)
         imports, late = imports[:cut], imports[cut:]
         ctx.res.count("components_imported_by_the_text")
